@@ -180,11 +180,12 @@ type deferred struct {
 }
 
 type Interp struct {
-	fl     Flags
-	Trace  []string
-	GTrace []string // events from goroutine bodies (compared as a multiset)
-	steps  int
-	depth  int
+	appendOK bool // the current assignment's targets are unaliased containers (generator guarantee)
+	fl       Flags
+	Trace    []string
+	GTrace   []string // events from goroutine bodies (compared as a multiset)
+	steps    int
+	depth    int
 	// UsedFinding reports whether a finding flag actually changed behaviour.
 	UsedFinding bool
 }
@@ -338,7 +339,10 @@ func (in *Interp) stmt(s gen.Stmt, sc *Scope, fr *frame) result {
 		}
 		vals = destructure(vals, len(s.LHS))
 		for i, t := range s.LHS {
-			if err := in.assignTo(t, vals[i], sc, fr); err != nil {
+			in.appendOK = s.Unaliased
+			err := in.assignTo(t, vals[i], sc, fr)
+			in.appendOK = false
+			if err != nil {
 				return result{c: cError, err: err}
 			}
 		}
@@ -704,7 +708,11 @@ func (in *Interp) assignTo(t gen.Expr, v Value, sc *Scope, fr *frame) *ErrVal {
 				unspec("store through a slice expression result")
 			}
 			if i == int64(len(xv.E)) {
-				unspec("store at index len (append)")
+				if !in.appendOK {
+					unspec("store at index len (append) into a container that may have other names")
+				}
+				xv.E = append(xv.E, v)
+				return nil
 			}
 			if i < 0 || i > int64(len(xv.E)) {
 				return rtErr("index out of range")
